@@ -162,7 +162,8 @@ def vec_writer(ctx, chk):
             if callee(t) == layout.SER and len(t["args"]) == 2:
                 n += 1
                 a = vx.operand(t["args"][1], bb)
-                from_tag = any((x[0] == "upvar" and x[1] == "tag") or (x[0] == "path" and x[1] in ("tag", "_2")) for x in walk(a))
+                tagname = root.local_name(2) or "_2"          # the vector's own tag parameter, whatever it is called
+                from_tag = any((x[0] == "upvar" and x[1] == tagname) or (x[0] == "path" and x[1] in (tagname, "_2")) for x in walk(a))
                 chk.require(from_tag, "C12-h/vec-writer", "Vec<T>::serialize_tagged",
                             "an element is serialised with %s instead of the tag handed to the vector: element kinds with their own "
                             "tagging rule (nested Vec, Option) get the wrong layout" % show(a)[:60], "element.serialize_tagged(tag.clone())",
